@@ -10,30 +10,12 @@
     cache, shared sort declarations, the builders' normal forms). *)
 From Coq Require Import List Lia Bool String Ascii NArith FMapPositive.
 From Patronus Require Import Expr ExprLemmas ExprEqb Eval SysClosed Btor2Parse Btor2Ser Btor2ExprFacts Btor2ParseProofs
-     Btor2Sound Btor2SerProofs Btor2RtExpr Btor2RtLines.
+     Btor2Sound Btor2SerProofs Btor2RoundTripSpec Btor2RtExpr Btor2RtLines.
 Import ListNotations.
 Open Scope string_scope.
 Open Scope N_scope.
 
-(** ** widths that fit the reader's u32 fields, on whole trees *)
-Definition ty_fits (t : ty) : bool :=
-  match t with TBV w => w <=? U32MAX | TArr iw dw => (iw <=? U32MAX) && (dw <=? U32MAX) end.
-
-Fixpoint efits (e : expr) : bool :=
-  ty_fits (type_of e) &&
-  match e with
-  | BVSymbol _ _ | BVLiteral _ _ | ArraySymbol _ _ _ => true
-  | BVZeroExt e _ _ | BVSignExt e _ _ | BVSlice e _ _ | BVNot e _ | BVNegate e _
-  | ArrayConstant e _ _ => efits e
-  | BVEqual a b | BVImplies a b | BVGreater a b | BVGreaterSigned a b _
-  | BVGreaterEqual a b | BVGreaterEqualSigned a b _ | BVConcat a b _
-  | BVAnd a b _ | BVOr a b _ | BVXor a b _ | BVShiftLeft a b _
-  | BVArithmeticShiftRight a b _ | BVShiftRight a b _ | BVAdd a b _ | BVMul a b _
-  | BVSignedDiv a b _ | BVUnsignedDiv a b _ | BVSignedMod a b _ | BVSignedRem a b _
-  | BVUnsignedRem a b _ | BVSub a b _ | BVArrayRead a b _ | ArrayEqual a b => efits a && efits b
-  | BVIte a b c | ArrayStore a b c | ArrayIte a b c => efits a && efits b && efits c
-  end.
-
+(** ** widths that fit the reader's u32 fields ([efits], Spec/Btor2RoundTripSpec.v) *)
 Lemma efits_children e : efits e = ty_fits (type_of e) && forallb efits (children e).
 Proof. destruct e; cbn [efits children forallb]; rewrite ?andb_true_r, ?andb_assoc; reflexivity. Qed.
 
